@@ -202,10 +202,46 @@ func (m *opsModel) entryAmong(info *types.Info, cands []*ast.FuncDecl) *ast.Func
 			roots = append(roots, fd)
 		}
 	}
-	if len(roots) >= 1 {
+	if len(roots) == 1 {
 		return roots[0]
 	}
-	return cands[0]
+	// no single root (the candidates call each other: a clause body extracted into a method with the
+	// dispatcher's own signature recurses into the dispatcher): the entry is the candidate that the most
+	// other functions of the package call
+	pool := roots
+	if len(pool) == 0 {
+		pool = cands
+	}
+	var pkg *types.Package
+	for fn := range isCand {
+		pkg = fn.Pkg()
+	}
+	callers := map[*types.Func]map[*types.Func]bool{}
+	for fn, fd := range m.g.decls {
+		if fn.Pkg() != pkg || isCand[fn] != nil || fd.Body == nil {
+			continue
+		}
+		finfo := m.g.info(fd)
+		ast.Inspect(fd.Body, func(n ast.Node) bool {
+			if call, ok := n.(*ast.CallExpr); ok {
+				if cal := CalleeOf(finfo, call); cal != nil && isCand[cal] != nil {
+					if callers[cal] == nil {
+						callers[cal] = map[*types.Func]bool{}
+					}
+					callers[cal][fn] = true
+				}
+			}
+			return true
+		})
+	}
+	best, bestN := pool[0], -1
+	for _, fd := range pool {
+		fn, _ := info.Defs[fd.Name].(*types.Func)
+		if n := len(callers[fn]); n > bestN {
+			best, bestN = fd, n
+		}
+	}
+	return best
 }
 
 func opsEnumField(c *Ctx, tn *types.TypeName) *Enum {
